@@ -48,7 +48,7 @@ size_t g_n;				/* length of the chunk in progress */
 size_t g_half;				/* scratch_sz / 2 */
 int g_read_err;				/* error code returned by a read, or 0 */
 int g_last_memcmp;			/* last memcmp result */
-sqfs_u8 g_scratch[SCR];
+sqfs_u8 *g_scratch;			/* scratch_sz bytes, allocated by the harness */
 
 static int c08_memcmp(const void *a, const void *b, size_t n);
 #define memcmp c08_memcmp
@@ -131,6 +131,8 @@ void harness(void)
 
 	VERIF_ASSUME(scratch_sz >= 2 && scratch_sz <= SCR);
 	g_half = scratch_sz / 2;
+	g_scratch = malloc(scratch_sz);
+	VERIF_ASSUME(g_scratch != NULL);
 
 	g_loc_a0 = verif_nd_u64("loc_a");
 	g_loc_b0 = verif_nd_u64("loc_b");
